@@ -279,7 +279,7 @@ prop(
 )
 prop(
     id="C12", module="Properties.C12", vfile="Properties/C12.v", level="proof", subcmd="c12",
-    theorems=["C12_power_loss_recovers_prefix", "C12_accepted_trace_power_loss", "C12_store_only_synced", "C12_truncate_only_flushed", "C12_D1_needed", "C12_D2_needed"],
+    theorems=["C12_power_loss_recovers_prefix", "C12_accepted_trace_power_loss", "C12_store_only_synced", "C12_truncate_only_covered", "C12_truncate_after_flush_accepted", "C12_D1_needed", "C12_D2_needed"],
     counts={"quick": 160, "thorough": 6000, "search": 640},
     rule=CRASH_RULE + "; the C12 run takes power-loss images only more often and the oracle demands every synced record present",
     assumptions=["a sync call makes the whole file durable and nothing else does (interposed fdatasync/fsync/msync are the only durability points); page granularity 4 KiB",
